@@ -11,12 +11,12 @@ CONFIG = {
         TRANSLATOR + " (TokensGen.v, UnicodeGen.v as for C11; unicode.IsSpace also drives strings.Fields / TrimSpace in the re-flow)",
         CORR, HARNESS,
         "modelled, not verified: strings.NewReplacer / ReplaceAll / Fields / TrimSpace / TrimRight / Repeat / Join, len() of strings (UTF-8 length), fmt.Sprintf with %s, []rune conversion",
-        "add-only hooks: internal/bcl/internal/parser/verif_export.go, internal/bcl/verifbcl, lib/verifshim/bcl, cmd/j5/internal/cli/verif_export.go + cmd/j5/verifcli (runs runJ5sFmt: j5 j5s fmt --file/--dir --write) (build tag verif)",
+        "add-only hooks: internal/bcl/internal/parser/verif_export.go, internal/bcl/verifbcl, lib/verifshim/bcl, cmd/j5/internal/cli/verif_export.go + cmd/j5/verifcli (runs runJ5sFmt: j5 j5s fmt --file/--dir --write), lib/verifshim/bcl FmtPublic (internal/bcl.Fmt, the wrapper the command calls) (build tag verif)",
     ],
     "assumptions": [
         "model/BclFmt.v is the hand-written model of fmt.go and description.go as they are after the fix: commits listed in KNOWN_FINDINGS.txt (tokenSource with the lexer's own escapes, Fields-based re-flow, bare '|' for an empty description), on top of the C11 models; tied to the code by byte-exact comparison of Fmt output (or its rejection) on every generated file, and of tokenSource / reformatDescription on random literals",
         "the full statement C09_full_statement is proved (C09_full) for the model, at rune level: input and output are rune lists ([]rune of the Go strings); the byte level adds only that decoding the UTF-8 encoding of decoded runes gives the runes back (modelled, not verified)",
-        "'same document' is over the walker's flat fragment list (comments included; nesting as the sequence of opening headers and closing braces, on which alone fragmentsToFile's diagnostics depend — to_file_ok_iff); values are compared by token type and literal, so x = a.b and x = \"a.b\" are the same value exactly as popValue makes them",
+        "'same document' is stated twice: over the walker's flat fragment list (comments included; nesting as the sequence of opening headers and closing braces, on which alone fragmentsToFile's diagnostics depend — to_file_ok_iff) in C09_full, and over the nested tree ParseFile returns (comments dropped by fragmentsToFile) in C09_same_tree; values are compared by token type and literal, so x = a.b and x = \"a.b\" are the same value exactly as popValue makes them",
     ],
     "mult_search": 4,
     "refuted": [],
